@@ -244,7 +244,7 @@ def run_spec(ctx, name, fault=None, record_args=True, built=None, holder=None):
             out = None
         # the fault counts as injected whenever it fired - even if pyrepseq swallowed it (bare except) and
         # surfaced something else, or carried on: such a call was disturbed and its value is not compared.
-        injected = fp.fired_at is not None or out is None
+        injected = fp.fired_at is not None or out is None or (not out.ok and isinstance(out.exc, InjectedFault))
     else:
         out = invoke()
     if injected:
